@@ -2291,3 +2291,35 @@ C08_ENCODE_OBS = dict(
 C08_ALL = [C08_N_OBS, C08_GET, C08_MCMC_STEP, C08_ALPHA, C08_PREC_OBS, C08_PREC_W0, C08_W0_STEP, C08_V0_STEP, C08_PREC_V0,
            C08_PREC_V2, C08_PREC_V1, C08_PREC_W, C08_W_STEP, C08_V2_STEP, C08_V1_STEP, C08_RECONSTRUCT, C08_UPDATE, C08_ENCODE_OBS]
 ALL += C08_ALL
+# C15: the unranking generator generate_combination_at_sorted_index (scoring/gaussian_dbal.py) as ONE function, and its
+# wrapper get_combination_at_sorted_index.  A generator denotes the list it yields; the inner `while current_index - n_ck >
+# index` runs on the explicit fuel parameter (py2gal: a general loop test); every `//` and `%` is checked (ZeroDivisionError =
+# tag 8, the tag Model/Unrank.v uses).  The outer loop variable `k` shadows the parameter: it is carried in the loop state
+# and range(k, 0, -1) is evaluated once, before the loop, on the parameter.  Trusted: the three builtin calls below.
+_C15_BUILTINS = [
+    ("range(__a, __b, -1)", "range_down {a} {b}", "list Z", {"a": "Z", "b": "Z"}),     # a, a-1, ..., b+1
+    ("range(__a, __b)", "range_up {a} {b}", "list Z", {"a": "Z", "b": "Z"}),           # a, a+1, ..., b-1
+    ("zip(__a, __b)", "combine {a} {b}", "list (Z * Z)", {"a": "list Z", "b": "list Z"}),   # pairs, up to the shorter one
+]
+C15_GENERATE = dict(
+    file="src/batchie/scoring/gaussian_dbal.py", func="generate_combination_at_sorted_index",
+    out="SrcUnrank.v", imports="Model.Unrank", name="src_generate_combination_at_sorted_index",
+    pyparams=["index", "n", "k"], params=[("index", "Z"), ("n", "Z"), ("k", "Z"), ("fuel", "nat")],
+    returns="list Z", generator="Z", while_fuel="fuel", checked_div=8,
+    range_like=(),      # no structural range(n) here: every range call is one of the primitives above
+    vars={"n_ck": "Z", "n_minus_i": "Z", "i_plus_1": "Z", "current_index": "Z", "k": "Z", "n": "Z"},
+    prims=_C15_BUILTINS,
+)
+C15_GET = dict(
+    file="src/batchie/scoring/gaussian_dbal.py", func="get_combination_at_sorted_index",
+    out="SrcUnrank.v", imports="Model.Unrank", name="src_get_combination_at_sorted_index",
+    pyparams=["index", "n", "k"], params=[("index", "Z"), ("n", "Z"), ("k", "Z"), ("fuel", "nat")],
+    returns="list Z", vars={},
+    prims=[
+        # the callee runs its translation (C15_GENERATE above), on the same fuel
+        ("generate_combination_at_sorted_index(__i, __n, __k)", "!src_generate_combination_at_sorted_index {i} {n} {k} fuel",
+         "list Z", {"i": "Z", "n": "Z", "k": "Z"}),
+        ("tuple(__g)", "{g}", "list Z", {"g": "list Z"}),      # a tuple is the list of its items, in the generator's order
+    ],
+)
+ALL += [C15_GENERATE, C15_GET]
